@@ -291,14 +291,15 @@ func (c *ctx) ownCase(ops []interface{}) {
 func reuseEvent(typ string, mk func() interface{}, un func(p interface{}, b []byte) error, proj func(p interface{}) interface{}, b1, b2 []byte) M {
 	ev := M{"ev": "reuse", "type": typ, "b1": bs(b1), "b2": bs(b2)}
 	used, fresh := mk(), mk()
-	r1, _ := observeFast(func() error { return un(used, append([]byte{}, b1...)) })
+	exact := func(b []byte) []byte { c := make([]byte, len(b)); copy(c, b); return c } // len == cap: reading behind the end panics
+	r1, _ := observeFast(func() error { return un(used, exact(b1)) })
 	// what a caller keeps after the first decode: a copy of the VALUE (slices inside it still point to what the decoder built)
 	kept := reflect.New(reflect.TypeOf(used).Elem())
 	kept.Elem().Set(reflect.ValueOf(used).Elem())
 	ev["kept1"] = proj(kept.Interface())
-	r2, _ := observeFast(func() error { return un(used, append([]byte{}, b2...)) })
+	r2, _ := observeFast(func() error { return un(used, exact(b2)) })
 	ev["kept2"] = proj(kept.Interface()) // ... must still read the same after the variable was decoded into again
-	r3, _ := observeFast(func() error { return un(fresh, append([]byte{}, b2...)) })
+	r3, _ := observeFast(func() error { return un(fresh, exact(b2)) })
 	ev["err1"], ev["err2"], ev["errfresh"] = r1, r2, r3
 	ev["used"] = proj(used)
 	ev["fresh"] = proj(fresh)
@@ -450,6 +451,14 @@ func (c *ctx) reuseEvents() {
 					func(p interface{}) interface{} {
 						return M{"val": emptyAsList(alToVal(p.(alPayload))), "mar": marOf(p.(alPayload))}
 					}, gen(), gen()))
+				// ... and a second input that is cut short (the length an earlier decode left behind must not decide what is read)
+				if t := gen(); len(t) > 1 {
+					c.emit(reuseEvent(fmt.Sprintf("al/%s/%v/%d", pn, up, cid), func() interface{} { return pk.newPayload(upp, cc) },
+						func(p interface{}, b []byte) error { return p.(alPayload).UnmarshalBinary(b) },
+						func(p interface{}) interface{} {
+							return M{"val": emptyAsList(alToVal(p.(alPayload))), "mar": marOf(p.(alPayload))}
+						}, gen(), t[:1+c.rnd.Intn(len(t)-1)]))
+				}
 			}
 			// ONE Command value decoded into twice: a command with a payload, then (where the direction has one) a command
 			// without payload - the second result is the second command alone
@@ -486,23 +495,43 @@ func (c *ctx) reuseEvents() {
 						b2 = one(noPl[c.rnd.Intn(len(noPl))])
 					}
 					mk := alCommandMakers[pn]
-					c.emit(reuseEvent(fmt.Sprintf("al/%s/%v/Command", pn, up), mk,
-						func(p interface{}, b []byte) error {
-							out := reflect.ValueOf(p).MethodByName("UnmarshalBinary").Call([]reflect.Value{reflect.ValueOf(upp2(up)), reflect.ValueOf(b)})
-							if e, ok := out[0].Interface().(error); ok && e != nil {
-								return e
+					calls, flip := 0, false
+					unCmd := func(p interface{}, b []byte) error {
+						dir := upp2(up)
+						if flip && calls == 0 {
+							dir = !dir // the value was last used for the OTHER direction
+						}
+						calls++
+						out := reflect.ValueOf(p).MethodByName("UnmarshalBinary").Call([]reflect.Value{reflect.ValueOf(dir), reflect.ValueOf(b)})
+						if e, ok := out[0].Interface().(error); ok && e != nil {
+							return e
+						}
+						return nil
+					}
+					projCmd := func(p interface{}) interface{} {
+						v := reflect.ValueOf(p).Elem()
+						pl := v.FieldByName("Payload")
+						out := M{"cid": int(v.FieldByName("CID").Uint()), "haspl": !pl.IsNil()}
+						if !pl.IsNil() {
+							out["val"] = emptyAsList(alToVal(pl.Interface().(alPayload)))
+						}
+						return out
+					}
+					c.emit(reuseEvent(fmt.Sprintf("al/%s/%v/Command", pn, up), mk, unCmd, projCmd, b1, b2))
+					// the same Command value used for the other direction first, then for this one with the SAME CID (request and
+					// answer share it): the second result is that of a fresh value in this direction
+					for _, cid := range withPl {
+						if p := pk.newPayload(!up, cid); !nilIface(p) {
+							alFromVal(p, c.genALVal(p))
+							if bo, err := pk.marshal([]alCmd{{cid, p}}); err == nil {
+								calls, flip = 0, true
+								ev := reuseEvent(fmt.Sprintf("al/%s/%v/Command", pn, up), mk, unCmd, projCmd, bo, one(cid))
+								delete(ev, "kept1") // the first decode was in the other direction: what was kept is not compared
+								delete(ev, "kept2")
+								c.emit(ev)
 							}
-							return nil
-						},
-						func(p interface{}) interface{} {
-							v := reflect.ValueOf(p).Elem()
-							pl := v.FieldByName("Payload")
-							out := M{"cid": int(v.FieldByName("CID").Uint()), "haspl": !pl.IsNil()}
-							if !pl.IsNil() {
-								out["val"] = emptyAsList(alToVal(pl.Interface().(alPayload)))
-							}
-							return out
-						}, b1, b2))
+						}
+					}
 				}
 			}
 			// Commands
